@@ -1,0 +1,14 @@
+//go:build verif && verifenc
+
+package code128
+
+// VerifIndexList exposes the symbol values chosen by the code-set selection
+// (start character, switches and data, without check and stop character) to
+// the conformance harness. ok is false when the content cannot be encoded.
+func VerifIndexList(content string) (values []byte, ok bool) {
+	idx := getCodeIndexList(strToRunes(content))
+	if idx == nil {
+		return nil, false
+	}
+	return idx.GetBytes(), true
+}
